@@ -2,13 +2,13 @@
    scope (guarded by: no broadcast to this connection in flight) *)
 From Coq Require Import List Arith Bool Lia.
 Import ListNotations.
-Require Import FV.C08.Model FV.C08.Lemmas.
+Require Import FV.C08.Model FV.C08.Lemmas FV.C08.Snapshot.
 
 (* ---- steps on behalf of connection a never change what connection b holds, receives or is subscribed to *)
 Lemma isolation : forall nd s a x b, a <> b ->
   let s' := cstep nd s (TC a, x) in
   logs s' b = logs s b /\ cth s' b = cth s b /\ (forall p, listens s' b p = listens s b p) /\
-  uth s' = uth s /\ cache s' = cache s /\ ulock s' = ulock s /\ bcasts s' = bcasts s.
+  uth s' = uth s /\ cache s' = cache s /\ bcasts s' = bcasts s.
 Proof.
   intros nd s a x b N s'. unfold s'.
   apply (cstep_cases nd s (TC a, x)); simpl; intros; try discriminate;
@@ -18,15 +18,18 @@ Proof.
   - unf. rewrite !upd_other by auto. repeat split; auto. intros. rewrite <- (listens_reset_other s a b p) by auto.
     apply listens_ext; reflexivity.
   - unf. rewrite !upd_other by auto. repeat split; auto.
-  - apply handle_cases; intros; subst r; unf; rewrite ?upd_other by auto; repeat split; auto; intros.
+  - apply handle_cases; intros; subst r; try rewrite cth_enter_other by auto; unf; rewrite ?upd_other by auto;
+      repeat split; auto; intros.
     + rewrite <- (listens_reset_other s a b p) by auto. apply listens_ext; reflexivity.
     + rewrite <- (listens_unregister_other s a sc b p) by auto. apply listens_ext; reflexivity.
-    + transitivity (listens (register s a sc) b p); [apply listens_ext; reflexivity |].
+    + rewrite ?listens_enter. transitivity (listens (register s a sc) b p); [apply listens_ext; reflexivity |].
       rewrite listens_register. apply Nat.eqb_neq in N. rewrite (Nat.eqb_sym b a), N; simpl. apply orb_false_r.
-    + transitivity (listens (register s a sc) b p); [apply listens_ext; reflexivity |].
-      rewrite listens_register. apply Nat.eqb_neq in N. rewrite (Nat.eqb_sym b a), N; simpl. apply orb_false_r.
+  - rewrite cth_enter_other by auto. unf. repeat split; auto. intros; apply listens_enter.
   - unf. rewrite upd_other by auto. repeat split; auto.
-  - unfold after_snapshot. destruct todo; unf; rewrite !upd_other by auto; repeat split; auto.
+  - unf. rewrite upd_other by auto. repeat split; auto.
+  - rewrite cth_enter_other by auto. unf. rewrite !upd_other by auto. repeat split; auto.
+    intros; rewrite listens_enter; apply listens_ext; reflexivity.
+  - unf. rewrite !upd_other by auto. repeat split; auto.
   - unf. rewrite !upd_other by auto. repeat split; auto.
 Qed.
 
@@ -74,11 +77,7 @@ Definition uflight (s : state) (c : conn) (p : pid) : Prop :=
   exists u v all pend, u_pc (uth s u) = USend p v all pend /\ In c pend.
 (* the connection's own activation still has to send p *)
 Definition cflight (s : state) (c : conn) (p : pid) : Prop :=
-  match c_pc (cth s c) with
-  | CBuild _ todo => In p todo
-  | CSendU _ q _ todo => q = p \/ In p todo
-  | _ => False
-  end.
+  match pending_snapshot (c_pc (cth s c)) with Some (_, rest) => In p rest | None => False end.
 Definition act_covering (p : pid) (r : req) : Prop :=
   match r with RAct sc _ => covers sc p = true | _ => False end.
 (* an activate request covering p is being processed or still to come *)
@@ -105,6 +104,14 @@ Qed.
 Lemma not_usend_next : forall s u p v all pend, u_pc (uth (next_upd s u) u) = USend p v all pend -> False.
 Proof. intros. destruct (uth_next_upd_self s u) as [_ [E | E]]; rewrite E in H; discriminate. Qed.
 
+Lemma silent_enter : forall s c sc g p,
+  listens s c p = false -> ~ uflight s c p -> ~ In p (flat g) -> ~ Exists (act_covering p) (c_script (cth s c)) ->
+  silent (enter_groups s c sc g) c p.
+Proof.
+  intros s c sc g p L U F W. unfold silent, uflight, cflight, wants. rewrite listens_enter, uth_enter.
+  destruct (cth_enter_self s c sc g) as [E1 [[-> E2] | [G E2]]]; rewrite E1, E2; simpl; repeat split; auto; tauto.
+Qed.
+
 Lemma silent_own_step : forall nd s c x p, silent s c p ->
   silent (cstep nd s (TC c, x)) c p /\ updates_of p (logs (cstep nd s (TC c, x)) c) = updates_of p (logs s c).
 Proof.
@@ -123,23 +130,40 @@ Proof.
   - (* handler *)
     assert (NW : ~ act_covering p r) by (intros E; apply W; left; rewrite H0; auto).
     assert (WS : ~ Exists (act_covering p) (c_script (cth s c))) by (intros E; apply W; right; auto).
-    apply handle_cases; intros; subst r; unfold silent, uflight, cflight, wants in *; unf;
-      rewrite ?upd_same; simpl; (split; [split; [| split; [| split]] |]); auto; try tauto.
-    + rewrite <- (listens_reset_self s c p). apply listens_ext; reflexivity.
-    + destruct (listens (set_cth (unregister s c sc) (upd (cth s) c {| c_pc := CSendR RpInactive; c_script := c_script (cth s c) |})) c p) eqn:E; auto.
+    apply handle_cases; intros; subst r;
+      try (unfold silent, uflight, cflight, wants in *; unf;
+           rewrite ?upd_same; simpl; (split; [split; [| split; [| split]] |]); auto; try tauto; fail).
+    + unfold silent, uflight, cflight, wants in *; unf. rewrite ?upd_same; simpl.
+      (split; [split; [| split; [| split]] |]); auto; try tauto.
+      rewrite <- (listens_reset_self s c p). apply listens_ext; reflexivity.
+    + unfold silent, uflight, cflight, wants in *; unf. rewrite ?upd_same; simpl.
+      (split; [split; [| split; [| split]] |]); auto; try tauto.
+      destruct (listens (set_cth (unregister s c sc) (upd (cth s) c {| c_pc := CSendR RpInactive; c_script := c_script (cth s c) |})) c p) eqn:E; auto.
       rewrite (listens_ext (unregister s c sc)) in E by reflexivity. apply listens_unregister_le in E; congruence.
-    + transitivity (listens (register s c sc) c p); [apply listens_ext; reflexivity |].
-      rewrite listens_register, L, Nat.eqb_refl; simpl in *. destruct (covers sc p); auto. exfalso; apply NW; auto.
-    + transitivity (listens (register s c sc) c p); [apply listens_ext; reflexivity |].
-      rewrite listens_register, L, Nat.eqb_refl; simpl in *. destruct (covers sc p); auto. exfalso; apply NW; auto.
-    + intros I. apply snapshot_list_covers in I. simpl in NW. congruence.
+    + split; [| unf; auto]. apply silent_enter.
+      * rewrite (listens_ext (register s c sc)) by reflexivity.
+        rewrite listens_register, L, Nat.eqb_refl; simpl in *. destruct (covers sc p); auto. exfalso; apply NW; auto.
+      * unfold uflight in *. simpl. rewrite uth_register. exact U.
+      * intros I. apply (snapshot_list_covers nd sc p) in I. simpl in NW. congruence.
+      * simpl. rewrite cth_register. exact WS.
+  - (* module lock, nothing to send *)
+    split; [| unf; auto]. unfold cflight in C. rewrite H0 in C. simpl in C.
+    apply silent_enter; auto. intros E; apply W; right; auto.
+  - (* module lock *) unfold silent, uflight, cflight, wants in *; unf. rewrite !upd_same; simpl.
+    rewrite H0 in *. simpl in C. repeat split; auto; try (intros [[] | E]; auto; fail).
   - (* build *) unfold silent, uflight, cflight, wants in *; unf. rewrite !upd_same; simpl.
     rewrite H0 in *. simpl in C. repeat split; auto; try (intros [[] | E]; auto; fail).
-  - (* snapshot send *)
-    assert (Q : p0 <> p /\ ~ In p todo) by (unfold cflight in C; rewrite H0 in C; tauto).
-    destruct Q as [Q1 Q2]. apply pid_eqb_neq in Q1.
-    unfold after_snapshot. destruct todo; unfold silent, uflight, cflight, wants in *; unf; rewrite !upd_same; simpl;
-      rewrite H0 in *; rewrite updates_of_app, Q1, app_nil_r; repeat split; auto; intros [[] | E]; auto.
+  - (* last snapshot message of a module *)
+    unfold cflight in C. rewrite H0 in C. simpl in C.
+    assert (Q1 : pid_eqb (m, i) p = false) by (apply pid_eqb_neq; tauto).
+    split.
+    + apply silent_enter; unf; auto. intros E; apply W; right; auto.
+    + unf. rewrite upd_same, updates_of_app, Q1, app_nil_r. auto.
+  - (* snapshot message *)
+    unfold cflight in C. rewrite H0 in C. simpl in C.
+    assert (Q1 : pid_eqb (m, i) p = false) by (apply pid_eqb_neq; tauto).
+    unfold silent, uflight, cflight, wants in *; unf. rewrite !upd_same; simpl.
+    rewrite H0 in *. rewrite updates_of_app, Q1, app_nil_r. repeat split; auto; try tauto; try (intros [[] | E]; auto; fail).
   - (* reply *) unfold silent, uflight, cflight, wants in *; unf. rewrite !upd_same; simpl.
     rewrite H0 in *. rewrite updates_of_app; simpl. rewrite app_nil_r. repeat split; auto; try (intros [[] | E]; auto; fail).
 Qed.
